@@ -381,8 +381,11 @@ type vc36Run struct {
 	have map[int]bool
 	// phase2: this run is the continuation of the scenario on a node restarted from a crash prefix of the first
 	// run (blocks, byHash, genesis, cfg are shared with it; counters get the prefix "cont_")
-	phase2    bool
-	contSteps []string // what the continuation did / skipped, for witnesses
+	phase2 bool
+	// bdDelivered: plan index -> this process has handed the block's receipt / message queue to
+	// CompareAndSetBlockData (zz_verif_c36_bdata_test.go)
+	bdDelivered map[int]bool
+	contSteps   []string // what the continuation did / skipped, for witnesses
 }
 
 func (run *vc36Run) count(name string, n int) {
@@ -756,10 +759,20 @@ func (run *vc36Run) importBlock(i int, r *vcommon.Rand) {
 
 	setBefore, _ := s.Grandpa.GetCurrentSetID()
 
+	// --- dot/sync blockImporter.processBlockData: a header-less BlockData (receipt / message queue only) of the
+	// parent arrives ahead of this block and goes straight to CompareAndSetBlockData (the parent may be finalised
+	// by now); see zz_verif_c36_bdata_test.go
+	run.deliverBlockData(parent, true)
+	if run.liveErr != "" {
+		return
+	}
+
 	// --- dot/core Service.handleBlock
+	logBefore := run.rec.n()
 	end := run.rec.span("store_trie")
 	err = s.Storage.StoreTrie(ts, header)
 	end()
+	run.countStoreTrie(logBefore)
 	if err != nil {
 		run.liveErr = fmt.Sprintf("live StoreTrie(block %d): %v", i, err)
 		return
@@ -786,6 +799,12 @@ func (run *vc36Run) importBlock(i int, r *vcommon.Rand) {
 	}
 	// --- end of handleBlock (runtime / code substitution handling writes nothing here)
 	run.have[i] = true
+	// --- dot/sync blockImporter.processBlockData after handleBlock, block without a justification:
+	// CompareAndSetBlockData(&blockData) = SetReceipt, SetMessageQueue (two separate top-level puts)
+	run.deliverBlockData(b, false)
+	if run.liveErr != "" {
+		return
+	}
 	for j := range run.blocks {
 		if j != i && run.have[j] && run.plan.Blocks[j].Parent == bp.Parent {
 			run.count("fork_points_imported", 1) // a sibling of an already imported block
